@@ -147,6 +147,19 @@ CLAIMED['C04'] = dict(
          'fixed (separate results file never flushed).',
     technique='Coq proof (invariant over event prefixes, induction over crash sequences) + systematic fault enumeration on the real code')
 
+CLAIMED['C07'] = dict(
+    text='Coq theorems for the 2-D path, for ANY matrices and selections: the selected rows/columns are exactly those whose ancillary index along '
+         'every dimension is in the selection, in increasing order whatever order or repetition the caller used; element (i,j) of the result is '
+         'main[rows[i], cols[j]]; the eager post-processing (squeeze, atleast_2d, shape-based transposition) is the identity on EVERY r x c '
+         'result (so square results keep their orientation and eager = lazy); negative / out-of-range / empty requests are refused; more than one '
+         'list index on the N-D path is refused. The N-D path (dask indexing of the cached view in either sort state, int drops the axis, '
+         'negative wrap, bounds checked first) has an executable model. Both models are compared with USIDataset.slice in coqc on random '
+         'dictionaries (ints, slices with steps, lists/tuples/arrays, malformed stream); an oracle compares with numpy indexing of the N-D form.',
+    design='5/C07',
+    note='Trusted: Coq kernel, dask/h5py indexing semantics as mirrored, harness. Partial: the N-D path has no element-wise theorem yet (model + '
+         'correspondence + oracle only). Two defects fixed (square result transposed, tuple selector in the N-D path).',
+    technique='Coq proof (list/matrix lemmas, case analysis on shapes) + in-Coq correspondence evaluation')
+
 NOT_YET = {}
 
 TITLES = {}
